@@ -15,6 +15,7 @@ CHECKS = {
  'C06': dict(cat='proof', sec='3/C06', text='On the generic on-shell universe (T := (G+Lambda g)/kappa) the postconditions are Hamiltonian = 0, Momentum = 0 and dtX == d/dt Spec_X computed by differentiating the spec along t in the jet algebra.'),
  'C09': dict(cat='proof', sec='3/C09', text='Contracts on the fluid 4-velocity, projector, stress-energy tensor, Eulerian projections and conserved densities against the textbook perfect-fluid formulas (moving fluid, shift, non-diagonal metric; W = (1-v^2)^(-1/2) exactly), and with T supplied directly.'),
  'C10': dict(cat='proof', sec='3/C10', text='Contracts on both branches of st_Weyl_down4 (frame + value), the 3+1 E/B formulas vs. contractions of the textbook Weyl tensor, Weyl scalars on the served null tetrad, invariants; both tetrad choices.'),
+ 'C03': dict(cat='proof', sec='3/C03', engine='E2 symx (z3)', text='cleanup_cache, __getitem__, freeze_data, load_data and get_size under contract. The real statements run on a symbolic instance (data / last_accessed as z3 maps, importance as a non-negative array, all settings and grid sizes symbolic); the four loops of cleanup_cache are cut out by ordinal and verified through loop contracts (foreach/filter, foreach/paired-delete, while with invariant Rel + termination variant, arg-max fold invariant). Proved for all histories by induction: no KeyError, frozen entries never selected/deleted, only whole unfrozen entries last used > 1 calculation ago are removed, age table subset of cache, termination; __getitem__ stores exactly func() and returns it.', note='A1, A6, A9; finite-set cardinality facts for the variant; requires importance >= 0, settings positive, no manual deletion from data; get_size >= 0 by structural induction on its AST (nbytes/getsizeof >= 0 trusted)', tech='Hoare-style verification conditions from the real statements (mechanically extracted loop bodies + loop contracts), z3 with quantified array invariants; native random-history harness only replays counter-models'),
  'C07': dict(cat='proof', sec='3/C07', engine='E2 symx (z3)', text='The 12 stencils, fd_map, d3_onesided/periodic/symmetric, d3x/d3y/d3z and the tensor wrappers are executed (real code objects, numpy re-bound to an index-function array model) on symbolic arrays of symbolic size; z3 proves for ALL N >= N_min (computed: 3p/2, p/2, p/2+1), ALL grid points, all three axes of a non-cubic grid and orders 2,4,6,8 that every output sample is the linear combination with the unique weights satisfying the order conditions, with wrap/mirror index maps and every read index in range.', note='A1 rational arithmetic for weights; A2 numpy slicing/concatenate/transpose semantics as modelled in engine/symx.py (cross-checked natively by the replay harness); Taylor theorem for "exact on degree <= p => order p"', tech='symbolic execution of the real code on z3-backed arrays (unbounded N, i); z3 discharges every verification condition'),
  'C08': dict(cat='proof', sec='3/C08', text='Closed-form determinant/inverse vs. Leibniz / Gauss-Jordan on generic symmetric matrices (array and list forms), populate_4Riemann placement and symmetries, all algebraic AurelCore keys against their specs, and the identity list of the property (inverse x metric = 1, det g = -alpha^2 det gamma, n.n = -1, raise/lower, trace-free, unit conformal determinant, ...) as lemmas on spec and real chain. safe_division: exhaustive type-dispatch x broadcast enumeration with a finite value set (bounded, not counted as proved).', note=TB + '; safe_division value set finite (bounded); conditioning for badly scaled inputs is outside this family'),
  'C01': dict(cat='proof', sec='3/C01', text='O1: for every documented key, every input scenario (tensor / component / partial / default inputs, fluid or T) and every reachable cache state of the guard keys found in its AST, the real body returns Spec_k(In) when callees return their specs (CacheInv); O2: __getitem__/cleanup_cache preserve CacheInv (E2); induction over histories gives history independence for all histories and cache settings. Real histories under aggressive eviction are additionally explored (bounded cross-check).', note=TB + '; requires Frozen(In) and OnShell(In) as stated in DESIGN 3/C01'),
